@@ -275,6 +275,33 @@ func mkWireBstr(name string, lo, hi int) (*vNodeT, []byte) {
 	return nnBstr(b, vWidth(name+".w", uint64(len(b)))), b
 }
 
+// vPriorUse: earlier in the process an unrelated message with an empty protected bucket was decoded and its
+// owner edited the decoded header maps (they belong to the caller): later decodes must not see those edits
+func vPriorUse(name string) {
+	if vChoose(name+".prior", 2) == 0 {
+		return
+	}
+	a := Algorithm(vInt64(name + ".prior.alg"))
+	edit := func(h *Headers) {
+		if h.Protected != nil {
+			h.Protected.SetAlgorithm(a)
+			h.Protected[int64(33)] = []byte{1}
+		}
+		if h.Unprotected != nil {
+			h.Unprotected[int64(4)] = []byte{2}
+		}
+	}
+	body := nnArray([]*vNodeT{nnBstr([]byte{}, 0), nnMap(nil, 0), nnBstr(vBlobN(name+".prior.payload", 0, 8), -1), nnBstr(vBlobN(name+".prior.sig", 1, 8), -1)}, 0)
+	var o Sign1Message
+	if o.UnmarshalCBOR(vSer(nnTag(18, body, 0))) == nil {
+		edit(&o.Headers)
+	}
+	var sg Signature
+	if sg.UnmarshalCBOR(vSer(nnArray([]*vNodeT{nnBstr([]byte{}, 0), nnMap(nil, 0), nnBstr(vBlobN(name+".prior.ssig", 1, 8), -1)}, 0))) == nil {
+		edit(&sg.Headers)
+	}
+}
+
 // vOtherTraffic: the library is used on an unrelated message between two steps of a harness
 // (decoders and encoders must not communicate through hidden state)
 func vOtherTraffic(name string) {
